@@ -7,6 +7,7 @@ package main
 
 import (
 	"fmt"
+	"sort"
 	"strings"
 
 	"rare/cmd/helpers"
@@ -48,6 +49,19 @@ type Case struct {
 	Cfg     Cfg      `json:"cfg"`
 	// scaler / unicode laws
 	Grid []int64 `json:"grid,omitempty"`
+	// Tag marks the cases of the size sweeps and history shapes (sweep.go):
+	// "size-family" / "history-family" is appended to their signatures.
+	Tag string `json:"tag,omitempty"`
+	// Diff (table, heatmap, spark): after the final render the same aggregator
+	// state is rendered by a fresh renderer on a fresh terminal; the long-lived
+	// renderer's data lines must be the same up to padding.
+	Diff bool `json:"diff,omitempty"`
+	// Distract: before every render another renderer instance of the same
+	// family (own terminal, own aggregator, other data) does a complete run:
+	// two instances used alternately.
+	Distract bool `json:"distract,omitempty"`
+	// magnitude / stacked laws (laws.go)
+	Vals []int64 `json:"vals,omitempty"`
 }
 
 type finding struct{ sig, detail string }
@@ -235,14 +249,44 @@ func drive(c Case, vt *recTerm, agg aggregation.Aggregator, render func()) {
 	for i, s := range c.Hist {
 		agg.Sample(s)
 		if next < len(c.Renders) && c.Renders[next] == i+1 {
+			if c.Distract {
+				distract(c)
+			}
 			vt.epoch++
 			render()
 			next++
 		}
 	}
 	if len(c.Hist) == 0 {
+		if c.Distract {
+			distract(c)
+		}
 		vt.epoch++
 		render()
+	}
+}
+
+// distract runs another instance of the same renderer family, same
+// configuration (so the process globals stay as they are), on other data. Its
+// own screen is not judged here (the same states are judged elsewhere); what
+// matters is that the instance under judgement is not influenced by it.
+func distract(c Case) {
+	d := Case{Family: c.Family, Cfg: c.Cfg, Hist: distractHist(c.Family)}
+	d.Renders = []int{len(d.Hist) / 2, len(d.Hist)}
+	var rep report
+	switch c.Family {
+	case "histo":
+		runHisto(d, &rep)
+	case "bars":
+		runBars(d, &rep)
+	case "table":
+		runTable(d, &rep)
+	case "heatmap":
+		runHeatmap(d, &rep)
+	case "spark":
+		runSpark(d, &rep)
+	case "reduce":
+		runReduce(d, &rep)
 	}
 }
 
@@ -263,12 +307,92 @@ type monoPoint struct {
 // checkMonotone: "bars ... grow with the value" / "Scaled magnitudes ... are
 // monotone in the value": a larger value is never drawn smaller.
 func checkMonotone(rep *report, sig string, pts []monoPoint) {
+	if len(pts) > 64 && monotoneSorted(pts) {
+		return // the quadratic scan below is only needed to name the pair
+	}
 	for i := range pts {
 		for j := range pts {
 			if pts[i].val <= pts[j].val && pts[i].measure > pts[j].measure {
 				rep.fail(sig+"/"+valueClass(pts[i].val, pts[j].val), "value %d (%s) is drawn larger (%d) than value %d (%s, %d)", pts[i].val, pts[i].what, pts[i].measure, pts[j].val, pts[j].what, pts[j].measure)
 				return
 			}
+		}
+	}
+}
+
+// monotoneSorted decides the same predicate as the pairwise scan of
+// checkMonotone in O(n log n): ordered by value, equal values have equal
+// measures and the measure never decreases.
+func monotoneSorted(pts []monoPoint) bool {
+	idx := make([]int, len(pts))
+	for i := range idx {
+		idx[i] = i
+	}
+	sort.Slice(idx, func(a, b int) bool {
+		if pts[idx[a]].val != pts[idx[b]].val {
+			return pts[idx[a]].val < pts[idx[b]].val
+		}
+		return pts[idx[a]].measure < pts[idx[b]].measure
+	})
+	for k := 1; k < len(idx); k++ {
+		p, q := pts[idx[k-1]], pts[idx[k]]
+		if p.measure > q.measure || p.val == q.val && p.measure != q.measure {
+			return false
+		}
+	}
+	return true
+}
+
+// ---- differential oracle of the history family
+
+// squeeze: a rendered line up to padding (runs of blanks).
+func squeeze(l string) string { return strings.Join(strings.Fields(l), " ") }
+
+// dataRegion: the lines above the first footer line, blank lines left out.
+func dataRegion(lines []string) []string {
+	var out []string
+	for _, l := range lines {
+		if l == "footer-0" {
+			break
+		}
+		if q := squeeze(l); q != "" {
+			out = append(out, q)
+		}
+	}
+	return out
+}
+
+// diffFresh: "For any aggregated state ... every renderer ...": what is drawn
+// is a function of the aggregated state and the configuration. The long-lived
+// renderer (which has rendered earlier, larger or smaller states) must show, up
+// to padding, the data lines a fresh renderer shows for the same state: no row
+// of an earlier state left on screen, no number, cell or more-note computed from
+// an earlier state. Column widths may be wider than a fresh renderer's (they
+// only grow, columns still line up: judged by checkGrid), so blanks are squeezed.
+func diffFresh(rep *report, fam string, vt *recTerm, fresh func(ft *recTerm)) {
+	ft := newRecTerm()
+	fresh(ft)
+	got, want := dataRegion(screen(vt)), dataRegion(screen(ft))
+	if len(got) > len(want) {
+		same := true
+		for i := range want {
+			if got[i] != want[i] {
+				same = false
+			}
+		}
+		if same {
+			rep.fail("C14/"+fam+"/row-of-an-earlier-state-still-shown", "the renderer shows %d data lines, a fresh renderer shows %d for the same aggregated state; left over: %q\nfresh:\n%s", len(got), len(want), got[len(want):], fmtLines(want))
+			return
+		}
+	}
+	if len(got) != len(want) {
+		rep.fail("C14/"+fam+"/render-differs-from-fresh-renderer", "the renderer shows %d data lines, a fresh renderer %d for the same aggregated state\nfresh:\n%s", len(got), len(want), fmtLines(want))
+		return
+	}
+	for i := range want {
+		if got[i] != want[i] {
+			rep.fail("C14/"+fam+"/render-differs-from-fresh-renderer", "line %d is %q, a fresh renderer draws %q for the same aggregated state", i, got[i], want[i])
+			return
 		}
 	}
 }
@@ -477,7 +601,9 @@ func runBars(c Case, rep *report) {
 			sum := 0
 			for i, n := range segs {
 				sum += n
-				pts = append(pts, monoPoint{vals[i], n, fmt.Sprintf("row %q segment %d", key, i)})
+				if c.Cfg.Color || len(vals) <= 16 { // otherwise the segments cannot be told apart
+					pts = append(pts, monoPoint{vals[i], n, fmt.Sprintf("row %q segment %d", key, i)})
+				}
 			}
 			// "bars never exceed their maximum width"
 			if sum > 50 {
@@ -534,6 +660,19 @@ func runBars(c Case, rep *report) {
 // every segment is "SGR blocks reset".
 func stackedSegments(raw, bar string, c Cfg, n int) ([]int, bool) {
 	segs := make([]int, n)
+	if !c.Color && n > 16 {
+		// the 16 segment characters repeat: which segment a character belongs
+		// to cannot be read off the bar. Only the total length is judged then
+		// (all cells are attributed to the first segment).
+		const digits = "0123456789ABCDEF"
+		for _, r := range bar {
+			if strings.IndexRune(digits, r) < 0 {
+				return nil, false
+			}
+			segs[0]++
+		}
+		return segs, true
+	}
 	if !c.Color {
 		const digits = "0123456789ABCDEF"
 		last := -1
@@ -676,6 +815,19 @@ func runTable(c Case, rep *report) {
 		lines[i] = visible(vt.Get(i))
 	}
 	checkGrid(rep, "table", c.Cfg, lines, cells, keys)
+	if c.Diff {
+		diffFresh(rep, "table", vt, func(ft *recTerm) {
+			w2 := termrenderers.NewDataTable(ft, c.Cfg.Cols, c.Cfg.Rows)
+			w2.ShowRowTotals = c.Cfg.Extra
+			w2.ShowColTotals = c.Cfg.Extra
+			if c.Cfg.Format != "" {
+				w2.SetFormatter(formatterOf(c.Cfg))
+			}
+			w2.WriteTable(counter, rowSorter, colSorter)
+			w2.WriteFooter(0, "footer-0")
+			w2.WriteFooter(1, "footer-1")
+		})
+	}
 	rep.nontrivial = len(rows) >= 1 && len(cols) >= 1
 	rep.outcome = append(rep.outcome, lines...)
 	if len(rep.findings) > 0 {
@@ -806,6 +958,21 @@ func runHeatmap(c Case, rep *report) {
 		}
 	} else if strings.HasSuffix(hdr, " more)") && !colNameEndsWithMore(cols) {
 		rep.fail("C14/heatmap/cols-more-note", "header %q has a more-note although all %d columns are shown", hdr, len(cols))
+	}
+	if c.Diff {
+		diffFresh(rep, "heatmap", vt, func(ft *recTerm) {
+			w2 := termrenderers.NewHeatmap(ft, c.Cfg.Rows, c.Cfg.Cols)
+			w2.FixedMin = c.Cfg.FixMin
+			w2.FixedMax = c.Cfg.FixMax
+			if c.Cfg.FixMin || c.Cfg.FixMax {
+				w2.UpdateMinMax(c.Cfg.Min, c.Cfg.Max)
+			}
+			w2.Scaler = scalerOf(c.Cfg)
+			w2.Formatter = formatterOf(c.Cfg)
+			w2.WriteTable(counter, rowSorter, colSorter)
+			w2.WriteFooter(0, "footer-0")
+			w2.WriteFooter(1, "footer-1")
+		})
 	}
 	rep.nontrivial = rowCount >= 1 && colCount >= 1
 	rep.outcome = append(rep.outcome, hdr)
@@ -988,6 +1155,16 @@ func runSpark(c Case, rep *report) {
 		if !found {
 			rep.fail("C14/spark/rows-more-note", "no line below the %d displayed rows shows %q (%d rows)", rowCount, wantNote, len(rows))
 		}
+	}
+	if c.Diff {
+		diffFresh(rep, "spark", vt, func(ft *recTerm) {
+			w2 := termrenderers.NewSpark(ft, c.Cfg.Rows, numCols)
+			w2.Scaler = scalerOf(c.Cfg)
+			w2.Formatter = formatterOf(c.Cfg)
+			w2.WriteTable(counter, rowSorter, colSorter) // the state as the command's Trim left it
+			w2.WriteFooter(0, "footer-0")
+			w2.WriteFooter(1, "footer-1")
+		})
 	}
 	rep.nontrivial = rowCount >= 1
 	rep.outcome = append(rep.outcome, lines...)
